@@ -103,3 +103,7 @@ def replay(case):
     gd = {"nodes": gd["nodes"], "di": gd["di"], "bi": gd["bi"]}
     f = lambda ev: [[c[0], [list(w) for w in c[1]], c[2]] for c in ev]  # noqa: E731
     run_case(_C(), gd, f(case["outcomes"]), f(case["conditions"]), "replay")
+
+
+def install_for_suite():
+    mon_cf.install_idcstar()
